@@ -622,6 +622,17 @@ def _gen_c(ctx, rnd):
         hard = [i >= H for i in path]
         e["cls"] = ("depth0" if not path else "all-hardened" if all(hard) else "all-normal" if not any(hard) else "mixed") + "-" + net
         ev.append(e)
+    # histories in ONE process: the same seed and path derived on one network, then on the other (and back), from the
+    # private master and from neuter points - derivation must not depend on what was derived before
+    for hn in range(2 if q else 12):
+        seed = rnd.randbytes(rnd.choice([16, 32, 64]))
+        path = [rnd.choice([0, 1, H, H + 1]), rnd.choice([0, 2, H - 1])] if hn % 2 == 0 else [rnd.choice([0, 1, H - 1]), rnd.choice([1, 2])]
+        order = ["main", "test", "main"] if hn % 2 == 0 else ["test", "main", "test"]
+        for net in order:
+            e = record_derive(seed, net, path, hn % 2, "prime")
+            e["notation"] = "prime"
+            e["cls"] = "history-" + net
+            ev.append(e)
     # valid serialised keys produced by the code (only used as mutation bases; validity is judged by TLC)
     bases = []
     for e in ev:
